@@ -20,7 +20,7 @@ def run(ck):
     if not m["ok"]:
         raise ToolError("Gen_Json did not complete: %s" % m["tail"][-800:])
     sim = ck.wd("sim.out")
-    r = tlc("Gen_Json", cfg="Gen_Json_sim", workers=8, out_path=sim, name="c13_sim", simulate=400 if ck.tier == "quick" else 40000, depth=64, timeout=7200)
+    r = tlc("Gen_Json", cfg="Gen_Json_sim", workers=8, out_path=sim, name="c13_sim", simulate=3000 if ck.tier == "quick" else 40000, depth=64, timeout=7200)
     ck.add_tlc(r)
     for o in [m["out"], sim]:
         bad = ck.wd(os.path.basename(o) + ".bad")
